@@ -157,6 +157,10 @@ pub fn gen_bank_program(t: &mut Tape) -> (Program, BankInfoGen) {
                 let k = t.draw(4) as usize;
                 cursor[cur] += k * unit;
                 items.push(Item::Res(lit_of(k as u64)));
+                // v3: a data element of width zero behind the reservation: it writes no bit
+                if crate::engine::gen_version() >= 3 && t.chance(1, 6) {
+                    items.push(Item::Data { width: None, elems: vec![E::Str { src: String::new(), chars: String::new() }] });
+                }
             }
             3 => {
                 let a = *t.pick(&[1u64, 2, 4, 8, 16, 32, 3]);
